@@ -1,4 +1,4 @@
-CONSTANTS Universe <- UnivDef MaxKeys = 3 Mods = {0, 1, 2, 3} Depth = 3 Alphabet = "table" Kinds = {"table", "counter"}
+CONSTANTS Universe <- UnivDef MaxKeys = 3 Mods = {0, 1, 2, 3} Depth = 3 Alphabet = "table" Kinds = {"table", "counter", "set"}
 SPECIFICATION Spec
 INVARIANT HashRefines
 INVARIANT MemberLemma
